@@ -2,7 +2,8 @@ package main
 
 // Layer (ib): the real runtime.CheckHashedWitness on a real vm.VM whose invocation stack is built with the
 // VM's own loaders (so IsCalledByEntry / GetCallingScriptHash / GetCurrentScriptHash / call flags are real)
-// and a real interop.Context whose only stub is the contract lookup.
+// and a real interop.Context whose only stub is the contract lookup. The cell itself is in directx.go:
+// a sequence of loader calls, CALLs and returns, every intermediate state observed.
 
 import (
 	"errors"
@@ -11,20 +12,9 @@ import (
 
 	"github.com/nspcc-dev/neo-go/pkg/config"
 	"github.com/nspcc-dev/neo-go/pkg/core/block"
-	"github.com/nspcc-dev/neo-go/pkg/core/dao"
-	"github.com/nspcc-dev/neo-go/pkg/core/interop"
-	"github.com/nspcc-dev/neo-go/pkg/core/interop/runtime"
-	"github.com/nspcc-dev/neo-go/pkg/core/state"
-	"github.com/nspcc-dev/neo-go/pkg/core/storage"
-	"github.com/nspcc-dev/neo-go/pkg/core/transaction"
-	"github.com/nspcc-dev/neo-go/pkg/crypto/hash"
 	"github.com/nspcc-dev/neo-go/pkg/crypto/keys"
 	"github.com/nspcc-dev/neo-go/pkg/smartcontract/callflag"
-	"github.com/nspcc-dev/neo-go/pkg/smartcontract/manifest"
-	"github.com/nspcc-dev/neo-go/pkg/smartcontract/nef"
-	"github.com/nspcc-dev/neo-go/pkg/smartcontract/trigger"
 	"github.com/nspcc-dev/neo-go/pkg/util"
-	"github.com/nspcc-dev/neo-go/pkg/vm/opcode"
 
 	"verif/harness/internal/hx"
 	"verif/harness/internal/prng"
@@ -39,41 +29,11 @@ func (stubLedger) GetConfig() config.Blockchain                { return config.B
 func (stubLedger) GetHeaderHash(uint32) util.Uint256           { return util.Uint256{} }
 func (stubLedger) NativeManagementID() int32                   { return -1 }
 
-// how a frame is pushed on the real VM
-const (
-	loadPlain   = iota // LoadScriptWithFlags: hash = Hash160(script), caller = current script hash
-	loadHash           // LoadScriptWithHash: given hash, caller = current script hash
-	loadNEF            // LoadNEFMethod: given hash and given caller (as native callers do)
-	loadDynamic        // LoadDynamicScript: hash = Hash160(script), caller = current script hash
-)
-
-type loadStep struct {
-	how        int
-	script     []byte
-	hash       util.Uint160 // loadHash, loadNEF
-	caller     util.Uint160 // loadNEF
-	flags      callflag.CallFlag
-	innerCalls int // CALLs inside the script after loading (same script context)
-}
-
-type directCell struct {
-	steps     []loadStep // entry first
-	contracts []contractInfo
-	signers   []signer
-	noTx      bool // ic.Tx == nil
-	useSigner bool // signers given through ic.UseSigners instead of the transaction
-	h         util.Uint160
-}
-
 func directUniverse() *universe {
 	return &universe{
 		hashes: []util.Uint160{smallHash(1), smallHash(2), smallHash(3), smallHash(4)},
 		keys:   []*keys.PublicKey{mustKey(1), mustKey(2), mustKey(3)},
 	}
-}
-
-func distinctScript(i int) []byte {
-	return []byte{byte(opcode.PUSHINT8), byte(i), byte(opcode.DROP), byte(opcode.RET), byte(opcode.RET)}
 }
 
 var flagChoices = []callflag.CallFlag{callflag.All, callflag.ReadOnly, callflag.ReadStates, callflag.States,
@@ -123,93 +83,6 @@ func genSigner(r *prng.R, u *universe, accounts []util.Uint160) signer {
 	return s
 }
 
-func genDirectCell(r *prng.R, u *universe) *directCell {
-	c := &directCell{}
-	depth := []int{1, 2, 2, 3, 3, 4}[r.Intn(6)]
-	for i := 0; i < depth; i++ {
-		st := loadStep{script: distinctScript(r.Intn(6)), flags: flagChoices[r.Intn(len(flagChoices))]}
-		if r.Chance(2, 3) {
-			st.flags = []callflag.CallFlag{callflag.All, callflag.ReadOnly, callflag.AllowCall}[r.Intn(3)]
-		}
-		switch {
-		case i == 0:
-			st.how = []int{loadPlain, loadPlain, loadHash, loadNEF}[r.Intn(4)]
-		default:
-			st.how = []int{loadHash, loadHash, loadHash, loadNEF, loadDynamic, loadPlain}[r.Intn(6)]
-		}
-		st.hash = u.hashes[r.Intn(len(u.hashes))]
-		if st.how == loadNEF {
-			switch r.Intn(4) {
-			case 0:
-				st.caller = util.Uint160{}
-			default:
-				st.caller = u.hashes[r.Intn(len(u.hashes))]
-			}
-		}
-		if r.Chance(1, 5) {
-			st.innerCalls = 1 + r.Intn(2)
-		}
-		c.steps = append(c.steps, st)
-	}
-	for _, h := range u.hashes {
-		if r.Chance(2, 3) {
-			ci := contractInfo{hash: h}
-			for _, k := range u.keys {
-				if r.Chance(1, 3) {
-					ci.groups = append(ci.groups, k)
-				}
-			}
-			c.contracts = append(c.contracts, ci)
-		}
-	}
-	// the dynamic / plain scripts may be "deployed" too (their hash is the script's)
-	accounts := []util.Uint160{smallHash(0xa1), smallHash(0xa2), smallHash(0xa3)}
-	accounts = append(accounts, u.hashes...)
-	accounts = append(accounts, util.Uint160{})
-	ns := []int{0, 1, 1, 2, 2, 3}[r.Intn(6)]
-	for i := 0; i < ns; i++ {
-		c.signers = append(c.signers, genSigner(r, u, accounts))
-	}
-	switch {
-	case len(c.signers) > 0 && r.Chance(3, 4):
-		c.h = c.signers[r.Intn(len(c.signers))].account
-	default:
-		c.h = accounts[r.Intn(len(accounts))]
-	}
-	if ns == 0 {
-		c.noTx = r.Bool()
-	} else if r.Chance(1, 10) {
-		c.useSigner = true
-	}
-	return c
-}
-
-// env derives what the chain of loaders must have produced, independently of the VM.
-func (c *directCell) env() *env {
-	e := &env{contracts: c.contracts}
-	var fr []frame
-	for i, st := range c.steps {
-		f := frame{rs: st.flags&callflag.ReadStates != 0}
-		switch st.how {
-		case loadPlain, loadDynamic:
-			f.hash = hash.Hash160(st.script)
-		default:
-			f.hash = st.hash
-		}
-		switch {
-		case st.how == loadNEF:
-			f.caller = st.caller
-		case i > 0:
-			f.caller = fr[i-1].hash
-		}
-		fr = append(fr, f)
-	}
-	for i := len(fr) - 1; i >= 0; i-- {
-		e.frames = append(e.frames, fr[i])
-	}
-	return e
-}
-
 func classifyErr(err error) string {
 	s := err.Error()
 	switch {
@@ -219,61 +92,6 @@ func classifyErr(err error) string {
 		return "err:nosigners"
 	}
 	return "err:other"
-}
-
-func (c *directCell) run() (obs string) {
-	defer func() {
-		if r := recover(); r != nil {
-			obs = "panic"
-		}
-	}()
-	var tx *transaction.Transaction
-	if !c.noTx {
-		tx = &transaction.Transaction{}
-		if !c.useSigner {
-			tx.Signers = realSigners(c.signers)
-		} else {
-			tx.Signers = []transaction.Signer{{Account: smallHash(0x77), Scopes: transaction.Global}}
-		}
-	}
-	getContract := func(_ *dao.Simple, h util.Uint160) (*state.Contract, error) {
-		for _, ci := range c.contracts {
-			if ci.hash == h {
-				cs := &state.Contract{ContractBase: state.ContractBase{Hash: h}}
-				for _, g := range ci.groups {
-					cs.Manifest.Groups = append(cs.Manifest.Groups, manifest.Group{PublicKey: g})
-				}
-				return cs, nil
-			}
-		}
-		return nil, errors.New("unknown contract")
-	}
-	ic := interop.NewContext(trigger.Application, stubLedger{}, dao.NewSimple(storage.NewMemoryStore(), false), 30, 100000,
-		getContract, nil, nil, nil, tx, nil)
-	if c.useSigner {
-		ic.UseSigners(realSigners(c.signers))
-	}
-	v := ic.SpawnVM()
-	for _, st := range c.steps {
-		switch st.how {
-		case loadPlain:
-			v.LoadScriptWithFlags(st.script, st.flags)
-		case loadHash:
-			v.LoadScriptWithHash(st.script, st.hash, st.flags)
-		case loadNEF:
-			v.LoadNEFMethod(&nef.File{Script: st.script}, &manifest.Manifest{}, st.caller, st.hash, st.flags, true, 0, -1, nil, nil, false)
-		case loadDynamic:
-			v.LoadDynamicScript(st.script, st.flags)
-		}
-		for i := 0; i < st.innerCalls; i++ {
-			v.Call(3)
-		}
-	}
-	res, err := runtime.CheckHashedWitness(ic, c.h)
-	if err != nil {
-		return classifyErr(err)
-	}
-	return fmt.Sprint(res)
 }
 
 // judge compares an observation of the real code with the declarative spec.
@@ -305,21 +123,5 @@ func judge(o *hx.Out, k int, layer string, u *universe, e *env, ss []signer, h u
 		}
 	default:
 		o.Fail("witness-unexpected-outcome", k, "%s: real=%s spec=%v(%s) %s", layer, obs, want, why, desc())
-	}
-}
-
-func runDirectCase(o *hx.Out, k int, r *prng.R, u *universe) {
-	o.Case(k)
-	c := genDirectCell(r, u)
-	e := c.env()
-	obs := c.run()
-	line := fmt.Sprintf("cw %s %s %s", hTok(c.h), e.tok(), signersTok(c.signers))
-	o.Line(line, obs)
-	judge(o, k, "direct", u, e, c.signers, c.h, obs, func() string { return line })
-	o.Count(fmt.Sprintf("direct:depth=%d", len(c.steps)))
-	o.Count(fmt.Sprintf("direct:signers=%d", len(c.signers)))
-	o.Seen(line)
-	if k%5000 == 0 {
-		o.Sample(line + " -> " + obs)
 	}
 }
